@@ -562,14 +562,17 @@ class CFG:
         while dq:
             u = dq.popleft()
             for v, lab in self.succ[u]:
-                if lab in labels_excluded or v in avoid_ids or v in prev:
+                if lab in labels_excluded:
                     continue
-                prev[v] = u
-                if v in tids:
-                    path = [v]
+                if v in tids and (v == start.id or v not in avoid_ids):
+                    # found (a cycle back to `start` counts when start is a target)
+                    path = [v, u]
                     while prev[path[-1]] is not None:
                         path.append(prev[path[-1]])
                     return [self.nodes[i] for i in reversed(path)]
+                if v in avoid_ids or v in prev:
+                    continue
+                prev[v] = u
                 dq.append(v)
         return None
 
